@@ -24,6 +24,7 @@ SIM = ["Nsl/Model/Map.lean", "Nsl/Model/Val.lean", "Nsl/Model/IR.lean", "Nsl/Mod
 
 PROPS = {
     "C01": ("p_c01", "Nsl.Props.C01", [], SIM),
+    "C02": ("p_c02", "Nsl.Props.C02", [], ["Nsl/Model/Opt.lean", "Nsl/Model/VM.lean", "Nsl/Model/IR.lean", "Nsl/Model/Val.lean", "Nsl/Proofs/VMSteps.lean", "Nsl/Proofs/Opt.lean", "Nsl/Props/C02.lean"]),
     "C03": ("p_c03", "Nsl.Props.C03", [], SIM + ["Nsl/Props/C03.lean"]),
     "C15": ("p_c15", "Nsl.Props.C15", [], SIM + ["Nsl/Props/C15.lean"]),
     # id: (python module, theorem module, [table-obligation modules], model source files to audit)
